@@ -99,7 +99,11 @@ func NewCron(db *bolt.DB, partitions int, maxJitter time.Duration, ttl time.Dura
 
 func (c *Cron) Jitter() time.Duration {
 	max := float64(c.MaxJitter)
-	d := time.Duration(rand.Float64()*max - max/2)
+	// Never negative: a job that is due before the time its
+	// schedule gives would run early, and then again at (or
+	// before) that same time, since the next time is computed
+	// from the moment the job ran.
+	d := time.Duration(rand.Float64() * max)
 	log.Printf("Cron.Jitter %v", d)
 	return d
 }
